@@ -23,7 +23,10 @@ class SuffixTrie(object):
         for part in reversed(suffix.split(".")):
 
             if part.startswith("!"):
-                node.exception = part[1:]
+                if node.exception is None:
+                    node.exception = set()
+
+                node.exception.add(part[1:])
                 break
 
             # To save up some RAM, we initialize the children dict only
@@ -72,7 +75,7 @@ class SuffixTrie(object):
                 break
 
             # Exception
-            if part == node.exception:
+            if node.exception is not None and part in node.exception:
                 break
 
             child = node.children.get(part)
